@@ -218,7 +218,33 @@ func c20EmitEval(o *Out, ps string, doc string) bool {
 		o.violation("C20", "Extract panicked", map[string]string{"path": ps, "doc": doc})
 		return false
 	}
-	o.emit("A", "c20.eval", [][]byte{[]byte(ps), []byte(w.String())}, []byte(obs), nil, false)
+	// the reference evaluation of the printed path on the same tree, in the model's notation; an error where the
+	// reference selects nothing counts as "nothing selected"
+	if perr == nil {
+		// the steps are read from the path text itself: the printed form of a path that ends in ..a is ..a.a
+		stepText := ps[1:]
+		if stepText == "" {
+			stepText = "$"
+		}
+		if steps, ok := refSteps(stepText); ok && !strings.ContainsAny(ps, `'"`) {
+			var rb strings.Builder
+			rb.WriteByte('O')
+			for _, x := range refEval(rv, steps, false) {
+				c20Plain(&rb, x)
+				rb.WriteByte('\n')
+			}
+			ref := rb.String()
+			if obs == "E" && ref == "O" {
+				ref = "E"
+			}
+			o.emit("A", "c20.eval", [][]byte{[]byte(ps), []byte(w.String())}, []byte(obs), []byte(ref), true)
+			o.count("model_eval_cases_with_reference", 1)
+		} else {
+			o.emit("A", "c20.eval", [][]byte{[]byte(ps), []byte(w.String())}, []byte(obs), nil, false)
+		}
+	} else {
+		o.emit("A", "c20.eval", [][]byte{[]byte(ps), []byte(w.String())}, []byte(obs), nil, false)
+	}
 	o.count("model_eval_cases", 1)
 	switch {
 	case obs == "E":
